@@ -1,0 +1,20 @@
+//go:build verif
+
+// Machine-checked contracts for package tagserver (comment-only; read by /verif/govc).
+// Property C32: a tag is stored only after every blob it depends on has been confirmed present in
+// the local origin cluster.
+//
+// localOriginClient.present is the ghost set of blobs for which Stat returned without error
+// (contracts/externs/clients.spec).
+
+package tagserver
+
+//@ func Server.putTag
+//@   requires s != nil && s.localOriginClient != nil && s.store != nil && s.neighbors != nil && s.provider != nil
+//@   modifies *
+//@   assert dependencies_present: at Store.Put#0 :: forall j int :: 0 <= j && j < len(deps) ==> (deps[j].hex in s.localOriginClient.present)
+//@   ensures stored_on_success: result == nil ==> (tag in s.store.put)
+//@   loop 0 invariant idx: 0 - 1 <= rangeindex && rangeindex < len(deps)
+//@   loop 0 invariant checked: forall j int :: 0 <= j && j <= rangeindex ==> (deps[j].hex in s.localOriginClient.present)
+//@   loop 0 invariant same: s.localOriginClient == entry(s.localOriginClient) && s.store == entry(s.store)
+//@   loop 1 invariant stored: (tag in s.store.put)
